@@ -121,13 +121,20 @@ def usable(svg, p, out, d, tags):
             out.fail("retained arc %d of %r has sweep %r" % (idx, d, seg.sweep), kind="coords", segkind=name,
                      field="sweep", first=(idx == 0), **tags)
             return
+    mag = 1.0
+    for seg in segs:
+        for q in (seg.start, seg.end):
+            if q is not None:
+                mag = max(mag, abs(q.x), abs(q.y))
     ops = [
         ("d()", lambda: p.d()),
         ("d(relative=True)", lambda: p.d(relative=True)),
         ("d(relative=False)", lambda: p.d(relative=False)),
         ("str", lambda: str(p)),
         ("bbox()", lambda: p.bbox()),
-        ("length(error=1e-3)", lambda: p.length(error=1e-3, min_depth=2)),
+        # the requested error scales with the drawing (an absolute 1e-3 on coordinates of 1e15 is below the resolution of
+        # a double and cannot be reached by any subdivision)
+        ("length(error=1e-3 x magnitude)", lambda: p.length(error=1e-3 * mag, min_depth=2)),
         ("abs(p*M)", lambda: abs(p * svg.Matrix(1, 0.5, 0.2, 1.5, 3, 4))),
     ]
     for name, fn in ops:
